@@ -3,6 +3,7 @@ import LenaModel.Model.C12
 import LenaModel.Model.C12Ext
 import LenaModel.Model.C12Alias
 import LenaModel.Model.C12Spec
+import LenaModel.Model.C12Call
 /-! Model driver for C12.  Numbers are exact rationals written as strings `"n/d"` (or `"n"`, or a JSON integer);
 nested bins are nested JSON arrays of such numbers.
 
@@ -42,6 +43,8 @@ Second part (Model/C12Ext.lean):
   {"op":"fmt","xs":[q..]}                               -> {"r":[str..],"parsed":[[neg,millionths]..]}   ("{:f}" and parseFixed of it)
   {"op":"group_scale","seq":bool, …as scale_to}         -> as scale_to
   {"op":"graph_add_any","a":graph,"b":graph|"other"|{"hist":hist}}   -> as graph_add
+  {"op":"hist_to_graph_st","h":hist,"mv":"runsum"|"count"|"feed","mode":str,"fields":names,"scale":..}   (Model/C12Call.lean)
+      -> {"g":gstate,"rows":[[q..]..],"hscale":q|null,"calls":[q..],"ncalls":n,"results":[[q..]..]} | {"e":name}
   {"op":"h2g_el","mv":null|"double"|"pair"|"triple"|"notvar","mode":str,"fields":names,"scale":..,"is_hist":bool,
    "h":hist,"to_graph":bool}  -> {"e":name,"phase":"init"|"run"} | {"unchanged":true} | {"g":gstate,"rows":..,"hscale":..}
   {"op":"chain","a":hist,"b":hist|null,"steps":[{"k":"scale_get","o":"a"|"b"|"c","rc":bool} | {"k":"scale_set","o":..,"s":q}
@@ -179,6 +182,14 @@ def makeValueOf (j : Json) : Option (Option (Rat → List Rat)) :=
     | some "pair" => some (some (fun v => [v, v / 2]))
     | some "triple" => some (some (fun v => [v, v / 2, v / 4]))
     | _ => none
+
+/-- the `make_value`s with state (`Model/C12Call.lean`): `"runsum"`, `"count"`, `"feed"` -/
+def stMakeValueOf (j : Json) : Option (StMakeValue (Rat × Nat)) :=
+  match str? j with
+  | some "runsum" => some mvRunSum
+  | some "count" => some mvCount
+  | some "feed" => some mvFeed
+  | _ => none
 
 def modeOf (s : String) : CoordMode :=
   if s == "left" then .left else if s == "right" then .right else if s == "middle" then .middle else .bad
@@ -425,6 +436,17 @@ def handle (j : Json) : Json :=
         | .error er => excObj er
       Json.mkObj [("bins", binsJ), ("bwe", bweJ), ("cells", cellsJ)]
     | _, _ => err "bad iter args"
+  | some "hist_to_graph_st" =>
+    match parseHist (getD j "h"), stMakeValueOf (getD j "mv"), str? (getD j "mode"), parseNames (getD j "fields"),
+          parseScaleArg (getD j "scale") with
+    | some h, some mk, some mode, some fields, some sc =>
+      match histToGraphSt h mk (0, 0) (modeOf mode) fields sc with
+      | .ok (h1, g, s1, tr) =>
+        Json.mkObj [("g", gstateJson g), ("rows", rowsJson g.rows), ("hscale", optNumJson h1.scale),
+                    ("calls", ofList ratJson tr), ("ncalls", ofNat s1.2),
+                    ("results", rowsJson (callResults mk (0, 0) tr))]
+      | .error er => excObj er
+    | _, _, _, _, _ => err "bad hist_to_graph_st args"
   | some "hist_to_graph" =>
     match parseHist (getD j "h"), makeValueOf (getD j "mv"), str? (getD j "mode"), parseNames (getD j "fields"),
           parseScaleArg (getD j "scale") with
